@@ -105,6 +105,8 @@ def check_gen(m, q, ref, typ, pred_desc, pred, ctx, cls):
     where = {'model': 'DateTimeModel', 'culture': 'en-us', 'cls': cls}
     case = {'query': q, 'reference': ref.isoformat(), 'type': typ, 'want': pred_desc, 'cls': cls}
     key = 'en-us|%s' % q
+    core = q.strip()
+    st0 = q.index(core)
     lib.take_swallowed()
     try:
         r = m.parse(q, ref)
@@ -125,7 +127,7 @@ def check_gen(m, q, ref, typ, pred_desc, pred, ctx, cls):
         vs = dtlib.vals(e)
         if e.resolution is None or not vs:
             mech = 'unresolved'
-        elif (e.start, e.end) != (0, len(q) - 1):
+        elif (e.start, e.end) != (st0, st0 + len(core) - 1):
             mech = 'wrong-span'
         elif e.type_name != 'datetimeV2.' + typ:
             mech = 'wrong-type'
@@ -184,6 +186,8 @@ def run_gen(job, ctx):
                         if vs[0].get('timex') != want['timex']:
                             return 'wrong-range-timex'
                     check_gen(m, q, dtlib.rand_ref(r), 'daterange', want, pred, ctx, 'daterange|%s|%s' % (name, tmpl.split()[0]))
+                    if name == 'iso':
+                        check_gen(m, '   ' + q + '  ', dtlib.rand_ref(r), 'daterange', want, pred, ctx, 'daterange|%s|%s|blanks' % (name, tmpl.split()[0]))
     elif part == 'timerange':
         n = 150 if ctx.tier == 'quick' else 3000
         for _ in range(n):
@@ -207,6 +211,7 @@ def run_gen(job, ctx):
                 if vs[0].get('timex') != want['timex']:
                     return 'wrong-range-timex'
             check_gen(m, q, dtlib.rand_ref(r), 'timerange', want, pred, ctx, 'timerange|ampm')
+            check_gen(m, '  ' + q, dtlib.rand_ref(r), 'timerange', want, pred, ctx, 'timerange|ampm|blanks')
 
 
 def run_triple(job, ctx):
